@@ -835,7 +835,7 @@ def storage_family(run, replay=None):
                           rule_text='TLC-generated histories of Set / Get / Delete / listing / SaveEntity / EntityWithName / DeleteEntity / Entities / Reopen over up to 3 keys and 3 entity names with values of length 0, 5, 40, 4096 (one word per model transition, all words up to the stated length on one key and one name, the attack history of the missing truncation, simulation); distinct = abstract history; non-trivial = contains an overwrite or a delete followed by a read',
                           nontrivial=lambda b: len([s for s in b['steps'] if s.get('op') in ('Set', 'SaveEntity', 'Delete', 'DeleteEntity')]) >= 2,
                           pseudo=[dict(id=3000000, kind='concurrent-writers', steps=[dict(op='ConcurrentSets')])],
-                          fpfun=lambda rule, b, line: ('%s/ConcurrentSets' % rule) if line.get('ev') == 'conc' else step_fingerprint(rule, b, line),
+                          fpfun=lambda rule, b, line: ('%s/%s' % (rule, line.get('op'))) if line.get('ev') == 'conc' else step_fingerprint(rule, b, line),
                           extra_cov=lambda lines, behs: dict(concurrent_writer_rounds=sum(1 for x in lines if x.get('ev') == 'conc')))
 
 
